@@ -174,7 +174,14 @@ func evalParse(c *Concretizer, pc *pCase) (got parseOutcome, want parseOutcome, 
 			}
 		}()
 
-		op, err := operationparser.New(p).Parse(pc.Cfg.NS, req)
+		parser := operationparser.New(p)
+
+		// the same bytes are first read the way anchored operations are (batch mode: most rules are off), on the
+		// SAME parser: what that call learnt must not soften the judgement of the request
+		_, _ = parser.ParseOperation(pc.Cfg.NS, req, true) //nolint:errcheck
+		_, _ = parser.GetRevealValue(req)                  //nolint:errcheck
+
+		op, err := parser.Parse(pc.Cfg.NS, req)
 		if err != nil {
 			got.Error = err.Error()
 			return
